@@ -29,8 +29,10 @@ def main():
     prop, k = sys.argv[1].upper(), sys.argv[2]
     keep = "--keep" in sys.argv
     notests = "--no-tests" in sys.argv
-    wt = "/tmp/seed/wt-%s" % prop
-    out = "/tmp/seed/out-%s/change%s" % (prop, k)
+    wave = 2 if "--wave2" in sys.argv else 1
+    wt = "/tmp/seed/%s-%s" % ("w2" if wave == 2 else "wt", prop)
+    out = "/tmp/seed/%s-%s/change%s" % ("out2" if wave == 2 else "out", prop, k)
+    sid = "%s-%d" % (prop, int(k) + (3 if wave == 2 else 0))
     patch = os.path.join(out, "patch.diff")
     demo = os.path.join(out, "demo.py")
     res = dict(property=prop, change=k)
@@ -86,13 +88,13 @@ def main():
     res["clean_after"] = (o.strip() == "")
     print(json.dumps(res, indent=1))
     if keep:
-        d = os.path.join(VERIF, "seeded", "%s-%s" % (prop, k))
+        d = os.path.join(VERIF, "seeded", sid)
         os.makedirs(d, exist_ok=True)
         for fn in ("patch.diff", "demo.py", "notes.md"):
             if os.path.exists(os.path.join(out, fn)):
                 shutil.copy(os.path.join(out, fn), os.path.join(d, fn))
         notes = open(os.path.join(out, "notes.md")).read() if os.path.exists(os.path.join(out, "notes.md")) else ""
-        meta = dict(property=prop, id="%s-%s" % (prop, k), source="independent sub-agent given only the property text and a scratch worktree",
+        meta = dict(property=prop, id=sid, round=wave, source="independent sub-agent given only the property text and a scratch worktree",
                     needs_to_manifest=notes.strip()[:1500],
                     what_was_run=dict(
                         demo_unchanged="cd <worktree> && /venv/bin/python demo.py -> exit %s" % res["demo_unchanged_rc"],
